@@ -245,6 +245,10 @@ def check_pddl(pr, items, bad, detail):
                 bad("PDDL name is not a valid identifier", dict(detail, item=str(it_), name=name))
             if core.lower() in kws:
                 bad("PDDL name is a keyword", dict(detail, item=str(it_), name=name))
+            if space == "types" and core.lower() == "object" and pr.kind.has_hierarchical_typing():
+                # PDDL is case-insensitive and `object` is its predefined root type: in a type hierarchy a user type written as `object`
+                # (in any case) would be declared as its own supertype
+                bad("a user type is written as PDDL's predefined root type `object` in a hierarchically typed problem", dict(detail, item=str(it_), name=name))
             if name.lower() in chosen and chosen[name.lower()] is not it_ and chosen[name.lower()] != it_:
                 bad(f"two {space.split(' ')[0]} share a PDDL name (case-insensitively)", dict(detail, a=str(it_), b=str(chosen[name.lower()]), name=name))
             chosen[name.lower()] = it_
@@ -318,6 +322,34 @@ def check_anml(pr, items, bad, detail):
     return n
 
 
+def reserved_type_problems():
+    """directed: a user type whose name is a case variant of a word the target languages reserve for types (`object`, PDDL's predefined root
+    type; `number`), as root and as child of a type hierarchy"""
+    from unified_planning.shortcuts import Problem, UserType, Fluent, BoolType, Object, InstantaneousAction, Not
+    out = []
+    for nm in ("object", "Object", "OBJECT", "oBject", "number", "Number"):
+        for as_root in (True, False):
+            pr = Problem("reserved_" + nm)
+            if as_root:
+                T1 = UserType(nm)
+                T2 = UserType("crate", T1)
+            else:
+                T1 = UserType("thing")
+                T2 = UserType(nm, T1)
+            f = Fluent("held", BoolType(), x=T1)
+            pr.add_fluent(f, default_initial_value=False)
+            o1, o2 = Object("o1", T1), Object("o2", T2)
+            pr.add_objects([o1, o2])
+            a = InstantaneousAction("take", x=T1, y=T2)
+            a.add_precondition(Not(f(a.parameters[0])))
+            a.add_effect(f(a.parameters[0]), True)
+            pr.add_action(a)
+            pr.add_goal(f(o2))
+            out.append((pr, {"types": [T1, T2], "fluents": [f], "objects": [o1, o2], "actions": [a], "params": {a.name: list(a.parameters)}},
+                        {"reserved_type_name": nm, "as_root": as_root}))
+    return out
+
+
 def bounded(tier, seed):
     n = 120 if tier == "quick" else 3000
     rng = random.Random(seed * 31337 + 38)
@@ -328,6 +360,9 @@ def bounded(tier, seed):
             failures.append({"what": what, "concrete": detail, "observed": observed})
     with warnings.catch_warnings():
         warnings.simplefilter("ignore")
+        for pr, items, detail in reserved_type_problems():
+            evals += check_pddl(pr, items, bad, detail)
+            evals += check_anml(pr, items, bad, detail)
         for i in range(n):
             s_ = seed * 1000003 + i
             temporal = (i % 3 == 0)
@@ -339,7 +374,7 @@ def bounded(tier, seed):
             if len(failures) >= 12:
                 break
     return {"evaluations": evals, "distinct_nontrivial": len(nontrivial), "failures": failures,
-            "rule": f"{n} problems whose types/fluents/objects/actions/parameters draw names from {len(ADVERSARIAL)} adversarial identifiers; "
+            "rule": f"12 directed problems with a user type named like a reserved type word (case variants of object / number, as root and as child); {n} problems whose types/fluents/objects/actions/parameters draw names from {len(ADVERSARIAL)} adversarial identifiers; "
                     f"evaluation = one chosen name checked (validity, keyword, uniqueness in namespace, both lookups, presence in text); non-trivial = distinct name set",
             "samples": [{"adversarial_pool": ADVERSARIAL[:12]}], "bound": f"{n} problems"}
 
